@@ -409,25 +409,134 @@ def scatter {α : Type} : List Bool → List α → List (Option α)
 
 def lastId (s : State K) : Nat := s.objs.length - 1
 
+/-- `result = src.copy(dtype=dt)` followed by a ufunc writing the valid cells of `result`
+(`out=result.data`); `g s1 r p old` is the new content of position `p`, computed in the state
+`s1` after the copy for the result object `r` -/
+def copyThenWrite (G : List Grid) (s : State K) (src : Obj) (dt : Option DType)
+    (g : State K → Obj → Nat → Option K → Option K) : Except Err (State K) :=
+  match copyAny s src dt with
+  | .error e => .error e
+  | .ok s1 =>
+    match getObj s1 (lastId s1) with
+    | .error e => .error e
+    | .ok r => .ok (s1.writeSel r.view (validSel G r) (g s1 r))
+
+/-- base.py:517-540: the checks of `_binary_operation` with a field as second operand; the answer
+is the operand that is copied to hold the result -/
+def binopSrc (s : State K) (op : BinOp) (oa ob : Obj) : Except Err Obj :=
+  if op.scalarSecond then
+    (if ob.cls != .scalar then .error .notScalar
+     else if oa.grid != ob.grid then .error .gridMismatch else .ok oa)
+  else if oa.cls == .scalar then
+    (if oa.grid != ob.grid then .error .gridMismatch else .ok ob)
+  else
+    match assertCompat s oa ob with
+    | .error e => .error e
+    | .ok _ => .ok oa
+
+/-- base.py:568-580: the checks of `_binary_operation_inplace` -/
+def inplaceChk (s : State K) (op : BinOp) (oa ob : Obj) : Except Err Unit :=
+  if op.scalarSecond then
+    (if ob.cls != .scalar then .error .notScalar
+     else if oa.grid != ob.grid then .error .gridMismatch else .ok ())
+  else assertCompat s oa ob
+
+/-- `a <op> b` (base.py:498-550) -/
+def binop (G : List Grid) (s : State K) (op : BinOp) (a : Nat) (b : Operand K) :
+    Except Err (State K) :=
+  match getObj s a with
+  | .error e => .error e
+  | .ok oa =>
+    if oa.cls == .raw then .error .badArg else
+    let dta := s.store.dtOf oa.view.buf
+    match b with
+    | .num v k =>
+      let t := dta.resultScalar k
+      if t.kind < (ufuncType op t).kind then .error .cast else
+      copyThenWrite G s oa (some t) (fun s1 _ p _ =>
+        opv op (cellOf (s1.store.readView oa.view) p) (some v))
+    | .obj hb =>
+      match getObj s hb with
+      | .error e => .error e
+      | .ok ob =>
+        if ob.cls == .raw then .error .badArg else
+        let t := dta.result (s.store.dtOf ob.view.buf)
+        match binopSrc s op oa ob with
+        | .error e => .error e
+        | .ok osrc =>
+          if t.kind < (ufuncType op t).kind then .error .cast
+          else if !((oa.ncomp == osrc.ncomp || oa.ncomp == 1) &&
+                    (ob.ncomp == osrc.ncomp || ob.ncomp == 1)) then .error .broadcast
+          else
+            copyThenWrite G s osrc (some t) (fun s1 _ p _ =>
+              opv op (cellOf (s1.store.readView oa.view) p) (cellOf (s1.store.readView ob.view) p))
+
+/-- `a <op>= b` (base.py:552-589): only the valid cells of `a` are written -/
+def inplace (G : List Grid) (s : State K) (op : BinOp) (a : Nat) (b : Operand K) :
+    Except Err (State K) :=
+  match getObj s a with
+  | .error e => .error e
+  | .ok oa =>
+    if oa.cls == .raw then .error .badArg else
+    let dta := s.store.dtOf oa.view.buf
+    let A := s.store.readView oa.view
+    match b with
+    | .num v k =>
+      if dta.kind < (ufuncType op (dta.resultScalar k)).kind then .error .cast
+      else .ok (s.writeSel oa.view (validSel G oa) (fun p _ => opv op (cellOf A p) (some v)))
+    | .obj hb =>
+      match getObj s hb with
+      | .error e => .error e
+      | .ok ob =>
+        if ob.cls == .raw then .error .badArg else
+        match inplaceChk s op oa ob with
+        | .error e => .error e
+        | .ok _ =>
+          if dta.kind < (ufuncType op (dta.result (s.store.dtOf ob.view.buf))).kind then
+            .error .cast
+          else if !(ob.ncomp == oa.ncomp || ob.ncomp == 1) then .error .broadcast
+          else
+            let B := s.store.readView ob.view
+            .ok (s.writeSel oa.view (validSel G oa)
+              (fun p _ => opv op (cellOf A p) (cellOf B p)))
+
+/-- `cls(grid, data, dtype=dt)` (datafield_base.py:52-126) -/
+def mkField (G : List Grid) (s : State K) (cls : Cls) (g : Nat) (dt : Option DType) (cplx : Bool)
+    (init : Init K) : Except Err (State K) :=
+  match G[g]? with
+  | none => .error .badArg
+  | some gr =>
+    if cls == .coll || cls == .raw then .error .badArg else
+    let nc := cls.ncomp gr.dim
+    let n := nc * gr.mask.length
+    let o : Obj := { cls := cls, grid := g, ncomp := nc, view := ⟨0, 0, 0⟩ }
+    let dtOut := dt.getD (if cplx then .c128 else .f64)
+    match init with
+    | .zeros => .ok (s.allocObj (List.replicate n (some ((0 : Nat) : K))) (dt.getD .f64) o)
+    | .valid vals =>
+      .ok (s.allocObj ((List.range n).map (fun p =>
+        if validSel G o p then vals[p]? else none)) dtOut o)
+    | .full vals => .ok (s.allocObj ((List.range n).map (fun p => vals[p]?)) dtOut o)
+
+/-- `-h` (base.py:461-471, collection.py:632-643) -/
+def negate (G : List Grid) (s : State K) (o : Obj) : Except Err (State K) :=
+  if o.cls == .raw then .error .badArg
+  else if o.cls == .coll then
+    match getObjs s o.members with
+    | .error e => .error e
+    | .ok os => linkColl (mapEach (mkNeg G) s os).1 (mapEach (mkNeg G) s os).2 o.grid none
+  else .ok (s.allocObj (mkNeg G s.store o).1 (mkNeg G s.store o).2 { o with members := [] })
+
+/-- `vector[c]` / `tensor[i, j]`: a new scalar field object looking at block `c` of the padded
+array (vectorial.py:165-179, tensorial.py:149-156) -/
+def compObj (o : Obj) (c : Nat) : Obj :=
+  { cls := .scalar, grid := o.grid, ncomp := 1,
+    view := ⟨o.view.buf, o.view.off + c * (o.view.len / o.ncomp), o.view.len / o.ncomp⟩ }
+
 /-- one operation; an error leaves the state as it was -/
 def step (G : List Grid) (s : State K) (op : Op K) : Except Err (State K) :=
   match op with
-  | .mkField cls g dt cplx init =>
-    match G[g]?, cls with
-    | none, _ => .error .badArg
-    | _, .coll => .error .badArg
-    | _, .raw => .error .badArg
-    | some gr, _ =>
-      let nc := cls.ncomp gr.dim
-      let n := nc * gr.mask.length
-      let o : Obj := { cls := cls, grid := g, ncomp := nc, view := ⟨0, 0, 0⟩ }
-      let dtOut := dt.getD (if cplx then .c128 else .f64)
-      match init with
-      | .zeros => .ok (s.allocObj (List.replicate n (some ((0 : Nat) : K))) (dt.getD .f64) o)
-      | .valid vals =>
-        .ok (s.allocObj ((List.range n).map (fun p =>
-          if validSel G o p then vals[p]? else none)) dtOut o)
-      | .full vals => .ok (s.allocObj ((List.range n).map (fun p => vals[p]?)) dtOut o)
+  | .mkField cls g dt cplx init => mkField G s cls g dt cplx init
   | .writeData h vals =>
     match getObj s h with
     | .error e => .error e
@@ -452,9 +561,7 @@ def step (G : List Grid) (s : State K) (op : Op K) : Except Err (State K) :=
     | .error e => .error e
     | .ok o =>
       if (o.cls == .vector || o.cls == .tensor) && decide (c < o.ncomp) then
-        let n := o.view.len / o.ncomp
-        .ok (s.pushObj { cls := .scalar, grid := o.grid, ncomp := 1,
-                         view := ⟨o.view.buf, o.view.off + c * n, n⟩ })
+        .ok (s.pushObj (compObj o c))
       else .error .badArg
   | .mkColl hs cp dt => mkColl s hs cp dt
   | .slice c idx =>
@@ -479,99 +586,9 @@ def step (G : List Grid) (s : State K) (op : Op K) : Except Err (State K) :=
   | .neg h =>
     match getObj s h with
     | .error e => .error e
-    | .ok o =>
-      match o.cls with
-      | .raw => .error .badArg
-      | .coll =>
-        match getObjs s o.members with
-        | .error e => .error e
-        | .ok os =>
-          let r := mapEach (mkNeg G) s os
-          linkColl r.1 r.2 o.grid none
-      | _ => .ok (s.allocObj (mkNeg G s.store o).1 (mkNeg G s.store o).2 { o with members := [] })
-  | .binop op a b =>
-    match getObj s a with
-    | .error e => .error e
-    | .ok oa =>
-      if oa.cls == .raw then .error .badArg else
-      let dta := s.store.dtOf oa.view.buf
-      match b with
-      | .num v k =>
-        let t := dta.resultScalar k
-        if t.kind < (ufuncType op t).kind then .error .cast else
-        match copyAny s oa (some t) with
-        | .error e => .error e
-        | .ok s1 =>
-          match getObj s1 (lastId s1) with
-          | .error e => .error e
-          | .ok r =>
-            let A := s1.store.readView oa.view
-            .ok (s1.writeSel r.view (validSel G r) (fun p _ => opv op (cellOf A p) (some v)))
-      | .obj hb =>
-        match getObj s hb with
-        | .error e => .error e
-        | .ok ob =>
-          if ob.cls == .raw then .error .badArg else
-          let t := dta.result (s.store.dtOf ob.view.buf)
-          -- which operand is copied to hold the result (base.py:524-540)
-          let src : Except Err Obj :=
-            if op.scalarSecond then
-              (if ob.cls != .scalar then .error .notScalar
-               else if oa.grid != ob.grid then .error .gridMismatch else .ok oa)
-            else if oa.cls == .scalar then
-              (if oa.grid != ob.grid then .error .gridMismatch else .ok ob)
-            else
-              match assertCompat s oa ob with
-              | .error e => .error e
-              | .ok _ => .ok oa
-          match src with
-          | .error e => .error e
-          | .ok osrc =>
-            if t.kind < (ufuncType op t).kind then .error .cast
-            else if !((oa.ncomp == osrc.ncomp || oa.ncomp == 1) &&
-                      (ob.ncomp == osrc.ncomp || ob.ncomp == 1)) then .error .broadcast
-            else
-            match copyAny s osrc (some t) with
-            | .error e => .error e
-            | .ok s1 =>
-              match getObj s1 (lastId s1) with
-              | .error e => .error e
-              | .ok r =>
-                let A := s1.store.readView oa.view
-                let B := s1.store.readView ob.view
-                .ok (s1.writeSel r.view (validSel G r)
-                  (fun p _ => opv op (cellOf A p) (cellOf B p)))
-  | .inplace op a b =>
-    match getObj s a with
-    | .error e => .error e
-    | .ok oa =>
-      if oa.cls == .raw then .error .badArg else
-      let dta := s.store.dtOf oa.view.buf
-      let A := s.store.readView oa.view
-      match b with
-      | .num v k =>
-        if dta.kind < (ufuncType op (dta.resultScalar k)).kind then .error .cast
-        else .ok (s.writeSel oa.view (validSel G oa) (fun p _ => opv op (cellOf A p) (some v)))
-      | .obj hb =>
-        match getObj s hb with
-        | .error e => .error e
-        | .ok ob =>
-          if ob.cls == .raw then .error .badArg else
-          let chk : Except Err Unit :=
-            if op.scalarSecond then
-              (if ob.cls != .scalar then .error .notScalar
-               else if oa.grid != ob.grid then .error .gridMismatch else .ok ())
-            else assertCompat s oa ob
-          match chk with
-          | .error e => .error e
-          | .ok _ =>
-            if dta.kind < (ufuncType op (dta.result (s.store.dtOf ob.view.buf))).kind then
-              .error .cast
-            else if !(ob.ncomp == oa.ncomp || ob.ncomp == 1) then .error .broadcast
-            else
-              let B := s.store.readView ob.view
-              .ok (s.writeSel oa.view (validSel G oa)
-                (fun p _ => opv op (cellOf A p) (cellOf B p)))
+    | .ok o => negate G s o
+  | .binop op a b => binop G s op a b
+  | .inplace op a b => inplace G s op a b
   | .storeFrame h =>
     match getObj s h with
     | .error e => .error e
@@ -584,15 +601,10 @@ def step (G : List Grid) (s : State K) (op : Op K) : Except Err (State K) :=
     | _, .error e => .error e
     | .ok ot, .ok fr =>
       if fr.cls != .raw then .error .badArg else
-      match copyAny s ot none with
-      | .error e => .error e
-      | .ok s1 =>
-        match getObj s1 (lastId s1) with
-        | .error e => .error e
-        | .ok r =>
-          let vals := scatter (selList G r) (s1.store.readView fr.view)
-          .ok (s1.writeSel r.view (validSel G r) (fun p old =>
-            match vals[p]? with | some (some x) => x | _ => old))
+      copyThenWrite G s ot none (fun s1 r p old =>
+        match (scatter (selList G r) (s1.store.readView fr.view))[p]? with
+        | some (some x) => x
+        | _ => old)
 
 /-- a whole history; failing operations are skipped (they leave the state unchanged) -/
 def run (G : List Grid) (s : State K) : List (Op K) → State K
